@@ -39,6 +39,8 @@ pub struct Case {
     pub block: bool,
     pub peers: u8,
     pub services: u8,
+    #[serde(default)]
+    pub id_layout: u8,
     pub ops: Vec<Op>,
 }
 
@@ -108,8 +110,11 @@ struct Live {
     released: Option<bool>,
 }
 
-fn peer_id(p: u8) -> PeerId {
-    PeerId([p.wrapping_add(1); 32])
+/// Peer ids share all bytes but one; `layout` selects which byte tells peers apart.
+fn peer_id(p: u8, layout: u8) -> PeerId {
+    let mut id = [0x5C; 32];
+    id[[0usize, 5, 8, 16, 31][layout as usize % 5]] = p.wrapping_add(1);
+    PeerId(id)
 }
 
 pub fn check(case: &Case, obs: &mut Obs) -> Result<(), Fail> {
@@ -236,7 +241,7 @@ pub fn check(case: &Case, obs: &mut Obs) -> Result<(), Fail> {
                 next_id += 1;
                 let mut req = Request::new(Bytes::new()).with_header("id", id.to_string()).with_header("peer", peer.to_string());
                 if !anon {
-                    req = req.with_extension(peer_id(peer));
+                    req = req.with_extension(peer_id(peer, case.id_layout));
                 }
                 let n = services.len();
                 let s = &mut services[*svc as usize % n];
@@ -318,7 +323,7 @@ pub fn check(case: &Case, obs: &mut Obs) -> Result<(), Fail> {
         for k in 0..=max {
             let id = next_id;
             next_id += 1;
-            let req = Request::new(Bytes::new()).with_header("id", id.to_string()).with_header("peer", p.to_string()).with_extension(peer_id(p));
+            let req = Request::new(Bytes::new()).with_header("id", id.to_string()).with_header("peer", p.to_string()).with_extension(peer_id(p, case.id_layout));
             let mut fut = services[0].call(req);
             let r = fut.as_mut().poll(&mut cx);
             let invoked = shared.lock().unwrap().invoked.contains(&id);
@@ -360,8 +365,8 @@ impl Part for Histories {
             2 => any::<u16>().prop_map(Op::Cancel),
             2 => Just(Op::Settle),
         ];
-        (0u8..6, any::<bool>(), 1u8..5, 1u8..4, prop::collection::vec(op, 0..60))
-            .prop_map(|(max, block, peers, services, ops)| Case { max, block, peers, services, ops })
+        (0u8..6, any::<bool>(), 1u8..5, 1u8..4, 0u8..5, prop::collection::vec(op, 0..60))
+            .prop_map(|(max, block, peers, services, id_layout, ops)| Case { max, block, peers, services, id_layout, ops })
             .boxed()
     }
     fn run(&self, c: &Case, obs: &mut Obs) -> Result<(), Fail> { check(c, obs) }
